@@ -642,10 +642,15 @@ func concurrent(t *testing.T, ad *adapter) {
 		}
 	}
 	// make sure every reference point the tasks decode is cached before the goroutines start
-	for _, tk := range tasks {
+	for i, tk := range tasks {
 		if got := tk.run(); got != tk.want {
-			// a sequential failure belongs to the other sub-checks; do not report it as a concurrency defect
-			t.Skipf("sequential value already differs for %s (reported by the group-law sub-checks)", tk.name)
+			// a sequential failure is not a concurrency defect, but it is a wrong group element all the same (the
+			// plan's scalars are fixed functions of the seed, which the drawn cases of the group-law sub-checks
+			// need not hit): reported under its own class, the concurrent part is not run
+			vlib.ReportDirect(t, fmt.Sprintf("C13/%s.%s/sequential-pass-of-concurrent-plan", ad.name, tk.name),
+				fmt.Sprintf("task #%d (%s) of the concurrency plan (scalars derived from seed %d), run alone before any goroutine starts: got %s want %s", i, tk.name, vlib.Seed, got, tk.want),
+				map[string]interface{}{"adapter": ad.name, "task": i, "op": tk.name, "seed": vlib.Seed})
+			return
 		}
 	}
 	const G = 8
